@@ -186,10 +186,19 @@ def main(argv=None) -> int:
     elif build_ok:
         try:
             mod.run(ctx)
-        except Exception as e:  # a crash of the machinery is not a verdict
+        except Exception as e:
             traceback.print_exc()
-            print(f"[{prop}] INTERNAL ERROR in check machinery: {e!r}")
-            return 2
+            tb = traceback.extract_tb(e.__traceback__)
+            inner = tb[-1] if tb else None
+            if inner is not None and str(Path(inner.filename).resolve()).startswith(str(Path(REPO).resolve()) + "/artlib"):
+                # raised INSIDE the implementation by a call the check does not expect to fail (on the unchanged tree
+                # it does not): the check cannot complete; reported like a broken correspondence, with the traceback
+                ctx.issue("diff", f"implementation-raised:{type(e).__name__}@{Path(inner.filename).name}:{inner.name}",
+                          f"{e!r} raised in {inner.filename}:{inner.lineno} ({inner.name}) during the check; the check stopped here",
+                          {"traceback": traceback.format_exception(type(e), e, e.__traceback__)[-12:]})
+            else:  # a crash of the machinery itself is not a verdict
+                print(f"[{prop}] INTERNAL ERROR in check machinery: {e!r}")
+                return 2
 
     # ---------------- verdict
     known = load_known()
